@@ -11,7 +11,7 @@ bestpath / remTable / nbest on the dumped lattice and the outputs are compared. 
 is evaluated directly on what the C code returned (order, path membership, score sums, maximum by an
 independent DP, posteriors against a float64 reference within the accumulated log-add rounding bound).
 """
-import json, math, struct
+import array, json, math, os, re, struct
 import vlib
 from props import c11 as m
 
@@ -20,6 +20,119 @@ WORST_SCORE = -536870912
 T0_DEC = 6932           # first entry of the decoder's log-add table (C12_int_link_posterior_dec)
 DELTA = 0.5 + 1e-6     # rounding of one entry of the log-add table (round to nearest, shift 0)
 EPS = 1e-5             # float64 slack of the reference
+# Props/C12Round.lean: eta = 1/2 + log_B(2^20/(2^20-1)) is the proved accuracy of one table addition
+# (C19_logAdd_is_rounded_log_of_sum), eta <= 51/100 (C12_int_passes_accurate_dec)
+ETA = 0.5 + math.log(2 ** 20 / (2 ** 20 - 1)) / math.log(1.0001)
+ETA_NUM, ETA_DEN = 51, 100
+INT32_HI = 2 ** 31
+
+_DEC = None
+
+
+def dec_table():
+    """the decoder's log-add table as regenerated from the running code (the table of cfgDec)"""
+    global _DEC
+    if _DEC is None:
+        txt = (vlib.LEAN / "SSVerif" / "Generated" / "LogTables.lean").read_text()
+        chunks = {int(k): body for k, body in re.findall(r"def dec_runs_(\d+) : List \(Nat × Nat\) := \[(.*?)\]\n", txt)}
+        tab = []
+        for k in sorted(chunks):
+            for v, n in re.findall(r"\((\d+), (\d+)\)", chunks[k]):
+                tab += [int(v)] * int(n)
+        zero = int(re.search(r"def dec_zero : Int := (-?\d+)", txt).group(1))
+        size = int(re.search(r"def dec_size : Nat := (\d+)", txt).group(1))
+        _DEC = (tab, zero, size)
+    return _DEC
+
+
+def logadd_dec(x, y):
+    """logmath_add with the decoder's table (mirror of Model/LogAdd.lean logAdd, int32 arguments)"""
+    tab, zero, _ = dec_table()
+    if x <= zero:
+        return y
+    if y <= zero:
+        return x
+    d, r = (x - y, x) if x > y else (y - x, y)
+    if d >= INT32_HI or d >= len(tab):
+        return r
+    return r + tab[d]
+
+
+def round_driver(lats):
+    """`ssdriver c12r` on every lattice with posteriors: Boolean checkers roundHypsB / budOKB, budgets, normaliser and backward
+    total recomputed by the model's logAdd from the C alphas/betas, exact forward/backward totals over N; result in d['_round']"""
+    text, idx = [], []
+    for i, d in enumerate(lats):
+        if d["null"] or not d.get("R") or "Q" not in d or not d["links"] or len(d["links"]) > m.MAX_LINKS_MODEL:
+            continue
+        nl = len(d["links"])
+        if sorted(d["R"]) != list(range(nl)) or any(d["R"][j].get("scaled") is None for j in range(nl)):
+            continue
+        G = d["G"]
+        text.append(f"begin {G['nframes']} {G['start']} {G['end']}")
+        text += [f"n 0 {n['sf']} {n['fef']} {n['lef']} {n['state']}" for n in d["nodes"]]
+        text += [f"l {l['src']} {l['dst']} {l['ef']} {l['ascr']}" for l in d["links"]]
+        text.append("c " + " ".join(str(d["R"][j]["scaled"]) for j in range(nl)))
+        text.append("e " + " ".join(str(j) for j in d["entries"].get(G["end"], [])))
+        text.append("al " + " ".join(str(d["R"][j]["alpha"]) for j in range(nl)))
+        text.append("be " + " ".join(str(d["R"][j]["beta"]) for j in range(nl)))
+        text.append("run")
+        idx.append(i)
+    if not idx:
+        return None
+    rc, out, err = vlib.run_driver("c12r", "\n".join(text) + "\n", timeout=900)
+    reps, cur = [], {}
+    for line in out.split("\n"):
+        w = line.split()
+        if not w:
+            continue
+        if w[0] == "end":
+            reps.append(cur)
+            cur = {}
+        elif w[0] == "bad-input":
+            cur["bad"] = True
+        elif w[0] == "hyps":
+            cur["hyps"] = int(w[1])
+        elif w[0] == "bud":
+            cur["bud"] = m.kv(w[1:])
+        elif w[0] in ("ea", "eb"):
+            cur[w[0]] = [int(t) for t in w[1:]]
+        elif w[0] in ("norm", "bwd", "remok"):
+            cur[w[0]] = int(w[1])
+        elif w[0] == "exact":
+            cur["exact"] = None if w[1] == "skipped" else m.kv(w[1:])
+    if rc != 0 or len(reps) != len(idx):
+        return dict(rc=rc, stderr=err[-1500:], nrep=len(reps), nlat=len(idx))
+    for i, r in zip(idx, reps):
+        lats[i]["_round"] = r
+    return None
+
+
+def budgets(d, T):
+    """budA/budB/budN/budW of Proofs/LatticePostBudget.lean: number of table additions whose rounding can
+    accumulate in alpha / beta of every link, in the normaliser and in the backward total"""
+    L, G = d["links"], d["G"]
+    s, e = G["start"], G["end"]
+    exits, entries = m.adjacency(d)
+    na, nb = {}, {}
+
+    def node_a(v):
+        if v not in na:
+            ins = entries[v]
+            na[v] = (max(ba[i] for i in ins) + len(ins) - 1) if ins else 0
+        return na[v]
+
+    def node_b(v):
+        if v not in nb:
+            outs = exits[v]
+            nb[v] = (max(bb[x] for x in outs) + len(outs) - 1) if outs else 0
+        return nb[v]
+    ba, bb = {}, {}
+    for j in T:                       # topological: all entries of the source are done
+        ba[j] = node_a(L[j]["src"])
+    for j in reversed(T):
+        bb[j] = node_b(L[j]["dst"])
+    return ba, bb, node_a(e), node_b(s)
 
 
 def f32(x):
@@ -99,6 +212,132 @@ def reference_fb(d):
     return sc, alpha, beta, norm, bwd, ea, eb, enorm, ebwd
 
 
+def judge_round(c, d, T, sc, alpha, beta, norm, exits, entries, adds, lo_pre, lo_suf, viol, stats, case):
+    """Props/C12Round.lean on one dumped lattice that satisfies the C11 predicate: hypotheses RoundHyps, then
+    C12_int_posterior_le_one_plus_budget, C12_int_forward_backward_totals_agree,
+    C12_int_link_posterior_ge_path_posterior (integer inequalities on the C values) and
+    C12_int_passes_accurate_dec (C values against the float64 reference of the exact logarithms)"""
+    L, G, P, R, Q = d["links"], d["G"], d["P"], d["R"], d["Q"]
+    s, e = G["start"], G["end"]
+    nl = len(L)
+    tab, zero, size = dec_table()
+
+    def inc(k, by=1):
+        stats[k] = stats.get(k, 0) + by
+    cfg_ok = abs(P["base"] - 1.0001) < 1e-12 and P["shift"] == 0 and P["logzero"] == zero and len(tab) == size
+    if not cfg_ok:
+        c.oblige("the decoder's logmath is the configuration cfgDec of C12Round (base 1.0001, shift 0, regenerated table)", False,
+                 {"P": P, "zero": zero})
+        return
+    # RoundHyps: strict no-underflow (prefix/suffix minima, the empty path included) and no overflow with 6932 per addition
+    hi_pre, hi_suf = {s: 0}, {e: 0}
+    for j in T:
+        a2, b2 = L[j]["src"], L[j]["dst"]
+        if a2 in hi_pre:
+            hi_pre[b2] = max(hi_pre.get(b2, hi_pre[a2] + sc[j]), hi_pre[a2] + sc[j])
+    for j in reversed(T):
+        a2, b2 = L[j]["src"], L[j]["dst"]
+        if b2 in hi_suf:
+            hi_suf[a2] = max(hi_suf.get(a2, hi_suf[b2] + sc[j]), hi_suf[b2] + sc[j])
+    # (start / end themselves also carry the empty path, score 0)
+    mx_pre = max(list(hi_pre.values()) + [0])
+    mx_suf = max(list(hi_suf.values()) + [0])
+    ba, bb, bn, bw = budgets(d, T)
+    kb = max(list(bb.values()) + [bw])                   # KB: a bound of all backward budgets (budKB)
+    hyp = (min(list(lo_pre.values()) + list(lo_suf.values()) + [0]) > zero
+           and mx_pre + T0_DEC * (nl + len(entries[e])) < INT32_HI
+           and mx_suf + T0_DEC * kb < INT32_HI)
+    if not hyp:
+        inc("round:lattices-outside-RoundHyps")
+        c.oblige("hypotheses RoundHyps of the C12Round theorems (no path score at or below log-zero, scores + 6932 per log-addition of the forward pass / of the largest backward budget below 2^31) "
+                 "hold on the dumped lattice", False, {"case": case, "request": d["tag"], "min_prefix": min(lo_pre.values()),
+                                                       "min_suffix": min(lo_suf.values()), "max_prefix": mx_pre, "max_suffix": mx_suf})
+        return
+    inc("round:lattices")
+    cnorm = Q["norm"]
+    # the Lean side (ssdriver c12r): Boolean checkers with soundness theorems (C12_round_checked), budgets, recomputed totals
+    rr = d.get("_round")
+    if rr is None:
+        inc("round:lattices-judged-without-the-driver(more links than the model evaluates)")
+    elif rr.get("bad"):
+        c.oblige("ssdriver c12r accepts the dumped lattice", False, {"case": case, "request": d["tag"]})
+    else:
+        inc("round:lattices-with-roundHypsB-and-budOKB-evaluated-by-the-driver")
+        if rr["hyps"] != 1 or rr["bud"]["ok"] != 1:
+            c.oblige("roundHypsB / budOKB (hypotheses of C12_round_checked) evaluate to true in the driver on the dumped lattice", False,
+                     {"case": case, "request": d["tag"], "hyps": rr["hyps"], "bud": rr["bud"]})
+        ea, eb = rr["ea"], rr["eb"]
+        if ([ea[L[j]["src"]] for j in range(nl)] != [ba[j] for j in range(nl)] or [eb[L[j]["dst"]] for j in range(nl)] != [bb[j] for j in range(nl)]
+                or rr["bud"]["n"] != bn or rr["bud"]["w"] != bw or rr["bud"]["kb"] != kb):
+            c.oblige("budgets of the driver (budsOf, certified by budOKB) = budgets recomputed in python (closed form of budA/budB/budN/budW)", False,
+                     {"case": case, "request": d["tag"], "driver": rr["bud"], "python": [bn, bw, kb]})
+        if rr["norm"] != cnorm:
+            viol.append((f"normaliser {cnorm} is not the log-sum {rr['norm']} (model logAdd, entry-list order) of the alphas of the links entering the end node", True))
+        rr_exact = rr.get("exact")
+        if rr_exact is not None:
+            inc("round:lattices-with-exact-passes-over-N-run-by-the-driver")
+            if rr_exact["fwd"] != rr_exact["bwd"] or rr_exact["fwd"] <= 0:
+                c.oblige("exact instance (+,*) over N of the generic passes alphaGen/betaGen on the dumped lattice: forward total = backward total > 0 "
+                         "(C12_exact_forward_backward evaluated by the Lean functions)", False, {"case": case, "request": d["tag"], "exact": rr_exact})
+    worst_slack = stats.get("round:smallest-slack-of-the-posterior-bound(1/100 log units)")
+    for j in range(nl):
+        r = R[j]
+        K = ba[j] + bb[j] + bn
+        post = r["alpha"] + r["beta"] - cnorm
+        slack = ETA_NUM * K - ETA_DEN * post
+        if slack < 0:
+            viol.append((f"link {j}: posterior alpha+beta-norm = {post} exceeds one by more than the PROVED accumulated rounding bound "
+                         f"0.51 x {K} table additions (C12_int_posterior_le_one_plus_budget)", True))
+        worst_slack = slack if worst_slack is None else min(worst_slack, slack)
+        inc("round:links")
+        if post > 0:
+            inc("round:links-with-posterior-above-one")
+            stats["round:largest-posterior-over-budget-ratio(post/K)"] = max(stats.get("round:largest-posterior-over-budget-ratio(post/K)", 0.0), round(post / max(K, 1), 3))
+        if K == 0:
+            inc("round:links-with-zero-budget")
+        inc("round:slack-histogram(log units):" + ("<1" if slack < 100 else "1-9" if slack < 1000 else "10-99" if slack < 10000 else ">=100"))
+        # accuracy against the float64 reference of the exact logarithm
+        for what, cv, ref, bud in (("alpha", r["alpha"], alpha[j], ba[j]), ("beta", r["beta"], beta[j], bb[j])):
+            dev = abs(cv - ref)
+            if dev > ETA * bud + EPS:
+                viol.append((f"link {j}: {what} {cv} deviates from the exact logarithm {ref:.4f} by {dev:.3f} > eta x {bud} table additions "
+                             f"(C12_int_passes_accurate_dec)", True))
+            if bud:
+                stats["round:largest-deviation-over-budget(" + what + ")"] = max(stats.get("round:largest-deviation-over-budget(" + what + ")", 0.0), round(dev / (ETA * bud), 3))
+        stats["round:largest-budget(alpha+beta+norm)"] = max(stats.get("round:largest-budget(alpha+beta+norm)", 0), K)
+    stats["round:smallest-slack-of-the-posterior-bound(1/100 log units)"] = worst_slack
+    if abs(cnorm - norm) > ETA * bn + EPS:
+        viol.append((f"normaliser {cnorm} deviates from the exact forward total {norm:.4f} by more than eta x {bn} (C12_int_passes_accurate_dec)", True))
+    # backward total with the same integer log-add, from the C betas (bwdInt), against the normaliser
+    bwd = zero
+    for x in exits[s]:
+        bwd = logadd_dec(bwd, R[x]["beta"] + sc[x])
+    if rr is not None and not rr.get("bad") and rr["bwd"] != bwd:
+        c.oblige("backward total recomputed by the driver (bwdInt with the model's logAdd) = python's table log-add", False,
+                 {"case": case, "request": d["tag"], "driver": rr["bwd"], "python": bwd})
+    gap = abs(cnorm - bwd)
+    if ETA_DEN * gap > ETA_NUM * (bn + bw):
+        viol.append((f"forward total {cnorm} and backward total {bwd} differ by more than the PROVED bound 0.51 x ({bn} + {bw}) "
+                     f"(C12_int_forward_backward_totals_agree)", True))
+    stats["round:largest-forward-backward-gap"] = max(stats.get("round:largest-forward-backward-gap", 0), gap)
+    stats["round:smallest-forward-backward-slack(1/100 log units)"] = min(stats.get("round:smallest-forward-backward-slack(1/100 log units)", 10 ** 12),
+                                                                           ETA_NUM * (bn + bw) - ETA_DEN * gap)
+    # lower sandwich: links on the best path (the chain lattice_posterior backtraces) have at least the path posterior
+    if d.get("P") and d["P"].get("best", -1) >= 0:
+        k, chain = d["P"]["best"], []
+        while k is not None and k >= 0 and k not in chain and k in R:
+            chain.append(k)
+            k = R[k]["prev"]
+        if chain and L[chain[-1]]["src"] == s and L[chain[0]]["dst"] == e:
+            joint = sum(sc[k] for k in chain)
+            for k in chain:
+                lp = R[k]["alpha"] + R[k]["beta"] - cnorm
+                if lp < joint - cnorm:
+                    viol.append((f"link {k} on the best path has posterior {lp} below the posterior {joint - cnorm} of the best path itself "
+                                 f"(C12_int_link_posterior_ge_path_posterior)", True))
+                inc("round:best-path-links-checked-against-path-posterior")
+
+
 def judge_c12(c, d, rep, tab, case, stats):
     """returns (violations [(what, found_input)], correspondence mismatches [str])"""
     viol, mism = [], []
@@ -136,9 +375,11 @@ def judge_c12(c, d, rep, tab, case, stats):
             r = rem(i)
             if r is not None and d["RS"][i] <= 0 and d["RS"][i] != r:
                 viol.append((f"A* heuristic of node {i} is {d['RS'][i]}, best remaining score is {r}", True))
-        if rep.get("rem") is not None and any(v <= WORST_SCORE for v in rep["rem"]):
-            c.oblige("hypothesis of C12_astar_first_is_max (no remaining score underflows WORST_SCORE) holds on the dumped lattice", False,
-                     {"case": case, "request": d["tag"]})
+        rr0 = d.get("_round")
+        if (rep.get("rem") is not None and any(v <= WORST_SCORE for v in rep["rem"])) or (rr0 and not rr0.get("bad") and rr0.get("remok") != 1):
+            # remOKB evaluated by the driver (soundness: remOKB_sound, used through C12_old_hyps_checked), cross-checked on the dumped table
+            c.oblige("hypothesis of C12_astar_first_is_max (no remaining score underflows WORST_SCORE; remOKB in the driver) holds on the dumped lattice", False,
+                     {"case": case, "request": d["tag"], "remOKB": rr0.get("remok") if rr0 else None})
         if rep.get("rem") is not None:
             # compared where the C memo is known (<= 0); nodes not below a seed keep the "unknown" mark
             bad = [i for i in range(len(N)) if d["RS"][i] <= 0 and d["RS"][i] != rep["rem"][i]]
@@ -293,6 +534,9 @@ def judge_c12(c, d, rep, tab, case, stats):
                          False, {"case": case, "request": d["tag"]})
             stats["posterior:largest-link-posterior-over-one(log units)"] = max(stats.get("posterior:largest-link-posterior-over-one(log units)", 0), wpost)
             stats["posterior:smallest-proved-bound"] = min(stats.get("posterior:smallest-proved-bound", 10 ** 12), proved) if nl else stats.get("posterior:smallest-proved-bound", 10 ** 12)
+            # ---- the PROVED accuracy bounds (Props/C12Round.lean), evaluated on the C values
+            if lat_ok and nl and all(j in d["R"] for j in range(nl)):
+                judge_round(c, d, T, sc, alpha, beta, norm, exits, entries, adds, lo_pre, lo_suf, viol, stats, case)
             # exact correspondence of the integer passes (model: alphaInt/betaInt/normInt with the decoder's log-add table)
             if ok_lat and rep.get("alpha") is not None and len(rep["alpha"]) == nl:
                 inc("posterior:lattices-compared-exactly")
@@ -358,14 +602,73 @@ def parse_rs(out, lats):
             lats[cur]["RS"] = [int(t) for t in line.split()[1:]]
 
 
+# an utterance of more than 32767 frames (5 min 28 s): frame numbers no longer fit an int16
+LONG_GRAMMAR = "#JSGF V1.0; grammar g; public <g> = go (forward | backward) (ten | two | nine) (meters | meter) ;"
+
+
+def long_audio(audios, seconds):
+    """tests/data/goforward.raw followed by deterministic low-level noise up to `seconds` s; written to the scratch dir"""
+    name = f"long{seconds}"
+    if name not in audios:
+        path = os.path.join(os.path.dirname(audios["pizza"]), f"long-{seconds}.raw")
+        if not os.path.exists(path):
+            out = array.array("h")
+            out.frombytes(open(audios["goforward"], "rb").read())
+            x, blk = 12345, array.array("h")
+            for _ in range(1 << 16):
+                x = (1664525 * x + 1013904223) & 0xFFFFFFFF
+                blk.append((x >> 24) - 128)
+            n = seconds * 16000
+            while len(out) < n:
+                out.extend(blk[:n - len(out)])
+            open(path, "wb").write(out[:n].tobytes())
+        audios[name] = path
+    return name
+
+
+def long_cases(rng, audios, tier):
+    """long-utterance family: tiny grammar, no filler loops (the tail is absorbed by the last word, the lattice stays small),
+    default beams; the lattice has more than 32767 frames (quick: one case of 330 s; thorough: also beyond 65535 frames
+    and with a request in the middle of the utterance after frame 32768)"""
+    specs = [(330, [])] if tier == "quick" else [(330, []), (331, [329 * 16000]), (660, [])]
+    res = []
+    for seconds, mids in specs:
+        name = long_audio(audios, seconds)
+        res.append(dict(grammar=LONG_GRAMMAR, kind="long-utterance", audio=name, cfg=["fsgusefiller=no"] + (["ascale=1"] if rng.chance(0.5) else []),
+                        cut=seconds * 16000, mids=list(mids), beam="default", k=20, ops=gen_history(rng), long_seconds=seconds))
+    return res
+
+
+def describe(case):
+    d = m.describe(case)
+    if case.get("long_seconds"):
+        d["audio"] = (f"tests/data/goforward.raw followed by deterministic low-level noise (LCG 1664525/1013904223 seed 12345, 65536-sample block "
+                      f"repeated, (x>>24)-128) up to {case['long_seconds']} s = {case['long_seconds'] * 100} frames")
+    return d
+
+
 def eval_case(c, binp, audios, case, stats):
+    if case.get("long_seconds"):
+        long_audio(audios, case["long_seconds"])
     rc, out, err, lats = m.run_case(binp, case, audios)
     if rc != 0:
         return None, dict(rc=rc, stderr=err[-2500:], stdout_tail=out[-600:])
     parse_rs(out, lats)
+    # latnode_times() hands out fef/lef as int16: beyond frame 32767 the API values wrap (the agreement of API and fields is a
+    # C11 clause, judged there).  C12 is about the scores on the lattice: use the fields where the API value is the wrapped field
+    for d in lats:
+        for n in d.get("nodes", []):
+            api, fld = (n["sf"], n["fef"], n["lef"]), (n["sf2"], n["fef2"], n["lef2"])
+            if api != fld and all((a - f) % 65536 == 0 for a, f in zip(api, fld)) and max(fld) > 32767:
+                n["sf"], n["fef"], n["lef"] = fld
+                if stats is not None:
+                    stats["long:node-times-taken-from-the-fields(int16 API value wrapped)"] = stats.get("long:node-times-taken-from-the-fields(int16 API value wrapped)", 0) + 1
     rcd, reps, derr, tabs = m.run_driver(lats, case["k"], with_build=False)
     if rcd != 0 or len(reps) != len(lats):
         return None, dict(driver_rc=rcd, stderr=derr[-1500:], nrep=len(reps), nlat=len(lats))
+    rfail = round_driver(lats)
+    if rfail:
+        return None, dict(driver="c12r", **rfail)
     res = []
     for d, rep, tab in zip(lats, reps, tabs):
         if stats is not None:
@@ -418,14 +721,20 @@ def gen_case(rng, audios):
 
 
 def check(c):
-    c.trusted += ["harness/h_c11.c + tools/props/c11.py, c12.py (dump, generator, float32 emulation of the score scaling, float64 reference of the log-domain sums)",
+    c.trusted += ["harness/h_c11.c + tools/props/c11.py, c12.py (dump, generator, float32 emulation of the score scaling, float64 reference of the log-domain sums, "
+                  "evaluation of the proved integer inequalities on the C values)",
                   "clang ASan/UBSan/LSan as observer of memory errors in ps_lattice.c (any report fails the run)"]
     c.assumptions += ["the property is evaluated on lattices satisfying C11 (checked by latticeOKB in the same run)",
                       "N-best scores omit the link out of the synthetic <s> node when the path is seeded at a frame-0 word node (A* seeds every frame-0 node); "
                       "the property does not relate the first N-best score to the best-path score and neither does the check",
-                      "integer link posteriors: the proved bound t[0] x (number of log-additions) (C12_int_link_posterior_dec) is checked, and in addition the sharper "
-                      "estimate of half a unit per table addition accumulated along the dependency chain of each alpha/beta/norm against a float64 reference "
-                      "(sup-norm Lipschitz argument; not proved)"]
+                      "integer link posteriors: the max-plus bound t[0] x (number of log-additions) (C12_int_link_posterior_dec) and the accuracy-based "
+                      "bounds of Props/C12Round.lean (0.51 per table addition in the budget of each alpha/beta/norm: C12_round_checked, "
+                      "C12_int_passes_accurate_dec) are theorems; their hypotheses are Boolean checkers (roundHypsB, budOKB, remOKB) evaluated by `ssdriver c12r` "
+                      "on every dumped lattice the model evaluates (<= 1500 links; larger ones by the python mirror only), the conclusions are evaluated on the C "
+                      "values as integer inequalities; the float64 reference is kept as a second, sharper estimate (half a unit + 1e-6 per addition; not proved)",
+                      "the theorems are about the model's alphaInt/betaInt/normInt, which are compared exactly with the C values on lattices of <= 450 links; on "
+                      "larger lattices the inequalities are evaluated on the C values without that comparison (normaliser and backward total are recomputed from the "
+                      "C alphas/betas by the model's logAdd in the driver)"]
     if not c.lean_obligations():
         return
     import re
@@ -442,6 +751,7 @@ def check(c):
     ndeep = len(cases)
     cases += deep_cases(rng, audios, 2)
     ndeep = len(cases) - ndeep
+    cases += long_cases(rng, audios, c.tier)
     for _ in range(ncases):
         cs = gen_case(rng, audios)
         if rng.chance(0.4):
@@ -458,14 +768,14 @@ def check(c):
         res, fail = eval_case(c, binp, audios, case, stats)
         if fail:
             harness_ok = False
-            c.oblige("harness + driver run to completion without sanitizer report / abort", False, {"case": m.describe(case), **fail})
-            viols.append((True, {"kind": "sanitizer report, abort or exit inside the lattice code", "case": m.describe(case), **fail,
+            c.oblige("harness + driver run to completion without sanitizer report / abort", False, {"case": describe(case), **fail})
+            viols.append((True, {"kind": "sanitizer report, abort or exit inside the lattice code", "case": describe(case), **fail,
                                  "case_raw": {k: v for k, v in case.items() if not k.startswith("_")}}, None, None))
             if len(viols) > 8:
                 break
             continue
         if ci < ncorp + 2:
-            c.samples.append(dict(m.describe(case), lattices=[("NULL" if d["null"] else f"{len(d['nodes'])} nodes/{len(d['links'])} links, {len(d['B'])} N-best entries")
+            c.samples.append(dict(describe(case), lattices=[("NULL" if d["null"] else f"{len(d['nodes'])} nodes/{len(d['links'])} links, {len(d['B'])} N-best entries")
                                                              for d, _, _, _ in res]))
         for (d, rep, v, mm) in res:
             nlat += 1
@@ -481,7 +791,7 @@ def check(c):
                 nmism += 1
                 if nmism <= 3:
                     c.oblige("correspondence model = implementation (traversal order / best path / heuristic / N-best)", False,
-                             {"case": m.describe(case), "request": d["tag"], "mismatch": t})
+                             {"case": describe(case), "request": d["tag"], "mismatch": t})
         if len(viols) > 40:
             break
     viols.sort(key=lambda v: (not v[0],))
@@ -495,14 +805,14 @@ def check(c):
         nrec += 1
         if case is not None:
             small = case
-            if found and not case.get("_corpus"):
+            if found and not case.get("_corpus") and not case.get("long_seconds"):
                 def still(cand, cls=cls):
                     r2, f2 = eval_case(c, binp, audios, cand, None)
                     if f2 or not r2:
                         return False
                     return any("".join(ch for ch in w2.split(":")[0][:50] if not ch.isdigit()) == cls for (_, _, v2, _) in r2 for (w2, _) in v2)
                 small = m.shrink_case(c, binp, audios, case, tag, still)
-            obj = dict(obj, case=m.describe(small), case_raw={k: v for k, v in small.items() if not k.startswith("_")})
+            obj = dict(obj, case=describe(small), case_raw={k: v for k, v in small.items() if not k.startswith("_")})
         c.violation(obj, found)
     c.oblige("oracle on the implementation's output: N-best order, path membership, score sums and hypothesis strings; best path = maximum; "
              "traversal topological; posteriors within the rounding bound, best-path posterior <= 1, forward = backward total", not viols,
@@ -528,11 +838,11 @@ def replay(c, path):
     case = obj["case_raw"]
     res, fail = eval_case(c, binp, audios, case, {})
     if fail:
-        c.violation({"kind": "sanitizer report, abort or exit inside the lattice code", "case": m.describe(case), **fail, "case_raw": case}, True)
+        c.violation({"kind": "sanitizer report, abort or exit inside the lattice code", "case": describe(case), **fail, "case_raw": case}, True)
     else:
         for (d, rep, v, mm) in res:
             for (what, found) in v:
-                c.violation({"kind": "lattice search results violate C12", "what": what, "request": d["tag"], "case": m.describe(case), "case_raw": case}, found)
+                c.violation({"kind": "lattice search results violate C12", "what": what, "request": d["tag"], "case": describe(case), "case_raw": case}, found)
             for t in mm:
                 c.oblige("correspondence model = implementation", False, {"request": d["tag"], "mismatch": t})
     c.cov.update({"evaluations": 1, "distinct_nontrivial": 1})
